@@ -190,12 +190,12 @@ def run(run):
         objs = {
             "HyperOptimizer": lambda: ct.HyperOptimizer(methods=rng.sample(["greedy", "random-greedy", "labels", "kahypar", "random"], 2),
                                                         max_repeats=4, parallel=False, optlib="random"),
-            "RandomGreedyOptimizer": lambda: ct.RandomGreedyOptimizer(max_repeats=4, seed=rng.randrange(100)),
+            "RandomGreedyOptimizer": lambda: ct.RandomGreedyOptimizer(max_repeats=4, seed=rng.randrange(100), parallel=False),
             "GreedyOptimizer": lambda: ct.GreedyOptimizer(),
             "OptimalOptimizer": lambda: ct.OptimalOptimizer() if N <= 7 else ct.GreedyOptimizer(),
             "RandomOptimizer": lambda: ct.pathfinders.path_random.RandomOptimizer(seed=rng.randrange(100)),
             "ReusableHyperOptimizer": lambda: ct.ReusableHyperOptimizer(methods=["greedy"], max_repeats=3, parallel=False, optlib="random"),
-            "ReusableRandomGreedyOptimizer": lambda: ct.ReusableRandomGreedyOptimizer(max_repeats=3),
+            "ReusableRandomGreedyOptimizer": lambda: ct.ReusableRandomGreedyOptimizer(max_repeats=3, parallel=False),
             "AutoOptimizer": lambda: ct.AutoOptimizer(max_repeats=4),
             "AutoHQOptimizer": lambda: ct.AutoHQOptimizer(max_repeats=4, optimal_cutoff=rng.choice([0, 650])),
         }
